@@ -41,7 +41,8 @@ class D:
         return self.draw(BOOL)
 
     def pick(self, values: Sequence) -> Any:
-        return self.draw(sampled(tuple(values)))
+        values = list(values)
+        return values[self.draw(ints(0, len(values) - 1))]
 
     def pct(self, p: int) -> bool:
         """True with probability p percent."""
